@@ -78,6 +78,11 @@ def IllFormedStrat (s : Summary) (rules : List CoreRule) : Prop :=
   ∃ i k j rk rj a, i < p.rules.length ∧ sameScc p i k = true ∧ sameScc p i j = true ∧
     p.rules[k]? = some rk ∧ p.rules[j]? = some rj ∧ AscentVerif.Item.agg a ∈ rk.body ∧ a.rel ∈ rj.headRels
 
+/-- some aggregation of some rule aggregates over (`agg p = f(v, ..) in rel(args..)`) a variable `v` that is
+not one of the identifier arguments of the aggregated relation (fix 5862f99; formerly finding FM5) -/
+def IllFormedAggBound (rules : List CoreRule) : Prop :=
+  ∃ r ∈ rules, ∃ rel args pat bound, Ev.agg rel args pat bound ∈ r.body ∧ ∃ v ∈ bound, v ∉ argVars args
+
 /-- dependency paths between rules (`feeds`: a head of the first occurs in the body of the second) -/
 inductive Path (p : Skel) : Nat → Nat → Prop
   | refl (i : Nat) : Path p i i
@@ -98,6 +103,23 @@ def IllFormedUnknownAttr (s : Summary) : Prop := ∃ a ∈ s.attrs, a.name ∉ r
 def IllFormedParOnlyAttr (s : Summary) : Prop :=
   s.kind.parallel = false ∧ ∃ a ∈ s.attrs, a.name = "inter_rule_parallelism"
 
+/-- the `impl` signature names another struct, or other generic arguments, than the `struct` signature
+(fix dfbe0be; formerly finding FM6) -/
+def IllFormedSig (s : Summary) : Prop :=
+  ∃ sg i, s.sig = some sg ∧ sg.implName = some i ∧ (i ≠ sg.structName ∨ sg.genericsMatch = false)
+
+/-! ## empty disjunctions -/
+
+/-- the item contains, at any depth of disjunctions, a disjunction without alternatives: `()` -/
+inductive HasEmptyDisj : Item → Prop
+  | here : HasEmptyDisj (.disj [])
+  | inDisj {alts : List (List Item)} {alt : List Item} {it : Item} :
+      alt ∈ alts → it ∈ alt → HasEmptyDisj it → HasEmptyDisj (.disj alts)
+
+/-- some rule contains an empty disjunction, at any position and depth (fix 361e42e; formerly finding FM4:
+the rule disappeared) -/
+def IllFormedEmptyDisj (s : Summary) : Prop := ∃ r ∈ s.rules, ∃ it ∈ r.body, HasEmptyDisj it
+
 /-! ## macros -/
 
 /-- the item contains, at any depth of disjunctions, an invocation of macro `m` -/
@@ -111,6 +133,12 @@ reaches itself through invocations — directly, mutually, through any cycle —
 def Diverging (ms : List MacroDef) (D : Name → Prop) : Prop :=
   ∀ m, D m → ∀ d, lookupMacro ms m = some d → ∃ it ∈ d.body, ∃ m', D m' ∧ Invokes it m'
 
+/-- a set of macro names in which the body of every (body) macro contains an empty disjunction or invokes a
+member of the set: the macros from which an empty disjunction is reached through invocations -/
+def ReachesEmptyDisj (ms : List MacroDef) (D : Name → Prop) : Prop :=
+  ∀ m, D m → ∀ d, lookupMacro ms m = some d →
+    (∃ it ∈ d.body, HasEmptyDisj it) ∨ ∃ it ∈ d.body, ∃ m', D m' ∧ Invokes it m'
+
 inductive HInvokes : HItem → Name → Prop
   | here (m : Name) (args : List Arg) : HInvokes (.mac m args) m
 
@@ -119,13 +147,14 @@ def HDiverging (ms : List MacroDef) (D : Name → Prop) : Prop :=
 
 /-- `Fits ms n it`: expanding `it` needs a depth budget of at most `n` (macro invocations resolve to body
 macros with the right number of arguments; the derivation is finite, hence the call graph below `it`
-is acyclic) -/
+is acyclic; every disjunction — in the item and in the macro bodies reached from it — has an alternative) -/
 inductive Fits (ms : List MacroDef) : Nat → Item → Prop
   | clause {n : Nat} (rel : Name) (args : List Arg) (conds : List Binder) : Fits ms (n + 1) (.clause rel args conds)
   | binder {n : Nat} (b : Binder) : Fits ms (n + 1) (.binder b)
   | agg {n : Nat} (rel : Name) (args : List Arg) (pat : Binder) (bound : List Var) : Fits ms (n + 1) (.agg rel args pat bound)
   | neg {n : Nat} (rel : Name) (k : Nat) : Fits ms (n + 1) (.neg rel k)
-  | disj {n : Nat} {alts : List (List Item)} : (∀ alt ∈ alts, ∀ it ∈ alt, Fits ms n it) → Fits ms (n + 1) (.disj alts)
+  | disj {n : Nat} {alts : List (List Item)} : alts ≠ [] → (∀ alt ∈ alts, ∀ it ∈ alt, Fits ms n it) →
+      Fits ms (n + 1) (.disj alts)
   | mac {n : Nat} {m : Name} {args : List Arg} {d : MacroDef} : lookupMacro ms m = some d → d.isHead = false →
       args.length = d.params.length → (∀ it ∈ d.body, Fits ms n it) → Fits ms (n + 1) (.mac m args)
 
@@ -145,7 +174,8 @@ structure WellFormedCore (s : Summary) (rules : List CoreRule) : Prop where
   progDs : dsOk s.attrs
   declDs : ∀ d ∈ s.decls, dsOk d.attrs ∧ (d.lat = true → ∀ a ∈ d.attrs, a.name ≠ "ds")
   stratified : ¬ IllFormedStrat s rules
-  aggBound : ∀ r ∈ rules, ∀ ev ∈ r.body, aggBoundOk ev = true
-  sigOk : ∀ sg, s.sig = some sg → ∀ i, sg.implName = some i → i = sg.structName ∧ sg.genericsMatch = true
+  aggBound : ¬ IllFormedAggBound rules
+  sigOk : ¬ IllFormedSig s
+  noEmptyDisj : ¬ IllFormedEmptyDisj s
 
 end AscentVerif.Check
